@@ -25,6 +25,8 @@ Kinds == {"Transport", "Non2xxNonJSON", "EmptyBody", "NonJSON", "ErrorsNoData", 
           "PartialData", "Non2xxJSON", "RateLimited"}
 \* RateLimited: the fetch is denied by the rate limiter (resolve.Context.SetRateLimiter) in the pre-fetch validation: nothing
 \*              is sent, the denial is reported; for isolation purposes a denied fetch is a failed fetch.
+\* (Kinds are classes: the generator refines Non2xxNonJSON by status code and PartialData / ErrorsNoData by the shape of
+\*  their errors array, see Gen_FetchExec!variant - the behaviour demanded here does not depend on the refinement.)
 \* PartialData: 200 with data AND errors - the answer is merged, its errors are forwarded; what the subgraph nulled is missing.
 \* Non2xxJSON:  a 5xx status with a complete, valid GraphQL body.  GraphQL-over-HTTP lets a client trust such a body,
 \*              so the gateway may use it (merged, nothing reported) or reject it (failed, reported) - but consistently.
